@@ -85,7 +85,7 @@ def make_converter(kind, log):
         if kind == 'identity':
             return code
         if kind == 'wrap-if':
-            return 'if True:\n' + textwrap.indent(code, '    ')
+            return 'if True:\n' + textwrap.indent(code if code.strip() else 'pass', '    ')
         if kind == 'comment-prefix':
             return '# converted: ' + ' '.join((symbol.equation or '').split())[:40].replace('`', '') + '\n' + code
         if kind == 'assert-guard':
@@ -98,7 +98,7 @@ def make_converter(kind, log):
             inner = fsic.build_model_definition([symbol])
             return '# checked (%d characters by default)\n' % len(inner.split('def _evaluate')[1]) + code
         if kind == 'try-guard':
-            return 'try:\n' + textwrap.indent(code, '    ') + '\nexcept ZeroDivisionError:\n    pass'
+            return 'try:\n' + textwrap.indent(code if code.strip() else 'pass', '    ') + '\nexcept ZeroDivisionError:\n    pass'
         raise ValueError(kind)
     return conv
 
@@ -269,6 +269,14 @@ def strategy():
         st.sampled_from([[['block', 'pass']], [['block', 'x = 1\ny = x + 1']], [['block', 'pass'], ['block', 'pass']],
                          [['block', 'assert t < 0, "never"']], [['block', 'if __debug__:\n    raise KeyError(t)']],
                          [['block', 'x = 1'], ['block', 'x = 1']],
+                         # each block compiles on its own, the method as a whole does not
+                         [['block', 'x = 1'], ['block', 'global x']],
+                         [['assign', ['var', 'Y', 'v', None], ['var', 'X', 'v', None]], ['block', 'x = 1'], ['block', 'global x']],
+                         [['block', 'x = t'], ['block', 'nonlocal x']], [['block', 't = 1'], ['block', 'global t']],
+                         # blocks without any statement: still symbols that carry an equation
+                         [['block', '']], [['block', '# TODO']], [['block', '# a'], ['block', '']],
+                         [['assign', ['var', 'Y', 'v', None], ['var', 'X', 'v', -1]], ['block', '# note']],
+                         [['block', ''], ['assign', ['var', 'Y', 'v', None], ['var', 'X', 'v', None]]],
                          # statements that compile on their own (the parser's syntax check) but not inside a method
                          [['block', 'from math import *']], [['block', 'global t']],
                          [['assign', ['var', 'Y', 'v', None], ['var', 'X', 'v', -1]], ['block', 'from math import *']],
